@@ -3,12 +3,15 @@ from pmon.ref.model import RefModel
 
 ROLES_PLAIN = [':ARG0', ':ARG1', ':ARG2', ':mod', ':domain', ':op1', ':op2', ':op10',
                ':polarity', ':quant', ':name', ':', ':x-y', ':consist-of',
-               ':prep-on-behalf-of', ':time', ':location', ':poss', ':\u00e9t\u00e9', ':r0', ':k']
+               ':prep-on-behalf-of', ':time', ':location', ':poss', ':\u00e9t\u00e9', ':r0', ':k',
+               # bases whose inversion (':consist-of', ':x-of', ':u-of' ...) some models define as a
+               # role of its own: usable only under the models that do not (R-base)
+               ':consist', ':prep-on-behalf', ':x', ':u']
 SYMS = ['-', '+', 'foo', 'bar', '7', '-1.5', '0', '0.0', '1e3', 'x', 'imperative', 'A',
         'b2', '\u03b5\u03c0', 'a.b', 'c,d', '^', "it's", '\u00a0', 'x\u2028y', '00', 'x\u3000y',
-        '\u0085', 'p#q']
+        '\u0085', 'p#q', 'mi\ufeffkh', 'z\u200bw']
 STRS = ['"x"', '"a b"', '"(p)"', '"a~b"', '"q/:r"', '"\\"q\\""', '"#h"', '""', '"\\\\"',
-        '"~1"', '"a\\nb"', '"\u00e9\u3000"', '"a ~e.1"', '"\u2028"', '"\tq\x0b"']
+        '"~1"', '"a\\nb"', '"\u00e9\u3000"', '"a ~e.1"', '"\u2028"', '"\tq\x0b"', '"a\ufeffb"']
 CONCEPTS = ['alpha', 'beta', 'bark-01', 'i', 'a', 'b', 'have-mod-91', '"str"', '7', 'A',
             '\u03b5', '"~x"', '-', 'x1', '_']
 VARPOOL = ['a', 'b', 'c', 'd', 'e', 'f', 'g', 'h', 'i', 'x1', 'x2', '_', '_2', 'i2', 'a2',
@@ -119,7 +122,8 @@ def rand_tree(rng, rm=None, n_nodes=None, p_reent=0.35, p_const=0.4, p_inv=0.3,
                     denoted.add(denote(v, role, x, True))
                 else:
                     continue
-            r = role + (mk_aln(rng) if rng.random() < p_aln else '')
+            ra = mk_aln(rng) if rng.random() < p_aln else ''
+            r = role + ra
             if kind == 'child':
                 branches.append((r, build(x)))
             elif kind == 'none':
@@ -127,7 +131,8 @@ def rand_tree(rng, rm=None, n_nodes=None, p_reent=0.35, p_const=0.4, p_inv=0.3,
             else:
                 t = x
                 if rng.random() < p_aln:
-                    t += mk_aln(rng)
+                    # sometimes the very same alignment as on the role (equal but distinct markers)
+                    t += ra if (ra and rng.random() < 0.35) else mk_aln(rng)
                 branches.append((r, t))
         return (v, branches)
 
@@ -253,3 +258,30 @@ def mangle(rng, node, rm=None):
         return (v, out)
 
     return rec(node)
+
+
+def wide_tree(rng, rm, roles, n=None):
+    """a node with many (11-16) branches over *roles* - enough reifiable relations to push
+    generated variable indices into two digits - mixing constants, nested nodes and
+    re-entrancies; well-formed by construction (distinct targets per role)."""
+    n = n or rng.randrange(11, 17)
+    roles = [r for r in roles if r in usable_bases(rm, roles)]
+    branches = [('/', 'hub')]
+    kids = 0
+    for i in range(n):
+        r = rng.choice(roles)
+        x = rng.random()
+        if x < 0.5:
+            branches.append((r, f'c{i}'))
+        elif x < 0.85:
+            kids += 1
+            sub = [('/', f'k{i}')]
+            if rng.random() < 0.4:
+                sub.append((rng.choice(roles), f'd{i}'))
+            if rng.random() < 0.3:
+                sub.append((rng.choice(roles) + '-of', 'h'))
+            branches.append((r + ('-of' if rng.random() < 0.25 and not rm.defines(r + '-of') else ''),
+                             (f'n{i}', sub)))
+        else:
+            branches.append((r, f'"s {i}"'))
+    return ('h', branches)
